@@ -201,6 +201,61 @@ def unit_wrapper(ctx):
                    func=IM + "InstanceMatchingAlgorithm.match_instances")
 
 
+def unit_copy(ctx):
+    """copy() of the three pair classes: the pipeline hands a copy to every stage (panoptic_evaluate, match_instances); the copy
+    must be a distinct pair object of the same class holding the same label maps voxel by voxel, the same dtype and the same counts."""
+    for cls, owner in (("SemanticPair", "_ProcessingPair"), ("UnmatchedInstancePair", "_ProcessingPairInstanced"), ("MatchedInstancePair", "MatchedInstancePair")):
+        eng = ctx.engine()
+        fn = PP + owner + ".copy"
+
+        def mk(e, cls=cls):
+            sp = Space("S")
+            P, Rr = base_array(e, "P", "uint8", sp), base_array(e, "R", "uint8", sp)
+            pair = e.call(e.resolve(PP + cls), [P, Rr], {})
+            return [pair], {}, {"pair": pair, "P": P, "R": Rr}
+
+        def target(pair, eng=eng):
+            return eng.call(eng.getattr(pair, "copy"), [], {})
+        paths = eng.run(target, mk)
+        ctx.expect(f"{cls}.copy: a returning path", any(p.kind == "return" for p in paths))
+        nm = f"processing_pair.{owner}.copy[{cls}]"
+        for pi, p in enumerate(paths):
+            if p.kind != "return":
+                ctx.oblige(f"{nm}/no-exception({p.exc.name() if p.exc else p.kind})#p{pi}", p.pc, z3.BoolVal(False), func=fn, replay="c04.copy", info={"cls": cls})
+                continue
+            c, o = p.value, p.state["pair"]
+            shape_ok = isinstance(c, SObj) and c is not o and c.cls is o.cls
+            ctx.oblige(f"{nm}/post(a distinct object of the same class)#p{pi}", [], z3.BoolVal(bool(shape_ok)), func=fn, replay="c04.copy", info={"cls": cls, "structural": True})
+            if not shape_ok:
+                continue
+            if pi == 0:
+                ctx.canary(f"{nm}#p{pi}", p.pc, func=fn)
+            g = []
+            for a in ("_prediction_arr", "_reference_arr"):
+                x, y = c.attrs.get(a), o.attrs.get(a)
+                if not (isinstance(x, VArr) and isinstance(y, VArr) and x.space is y.space and x.dtype_name == y.dtype_name):
+                    g.append(z3.BoolVal(False))
+                else:
+                    g.append(x.term == y.term)
+            ctx.oblige(f"{nm}/post(both label maps equal voxel by voxel, same dtype and shape)#p{pi}", p.pc, z3.And(*g), func=fn, replay="c04.copy", info={"cls": cls})
+            g = []
+            for a in ("n_prediction_instance", "n_reference_instance"):
+                if a in o.attrs or cls != "SemanticPair":
+                    x, y = c.attrs.get(a), o.attrs.get(a)
+                    try:
+                        g.append(to_term(x) == to_term(y))
+                    except Exception:
+                        g.append(z3.BoolVal(x is y))
+            # the label tuples are recomputed by the constructor from the (equal) maps; the matched / missed lists are handed over
+            for a in (("matched_instances", "missed_reference_labels", "missed_prediction_labels") if cls == "MatchedInstancePair" else ()):
+                x, y = c.attrs.get(a), o.attrs.get(a)
+                same = x is y or (isinstance(x, SymSeq) and isinstance(y, SymSeq) and getattr(x, "base", None) is getattr(y, "base", 0)
+                                  and getattr(x, "cond", None) is not None and getattr(y, "cond", None) is not None and z3.eq(x.cond[1], y.cond[1])) \
+                    or (isinstance(x, (list, tuple)) and isinstance(y, (list, tuple)) and list(x) == list(y))
+                g.append(z3.BoolVal(bool(same)))
+            ctx.oblige(f"{nm}/post(instance counts and label lists carried over)#p{pi}", p.pc, z3.And(*g) if g else z3.BoolVal(True), func=fn, replay="c04.copy", info={"cls": cls})
+
+
 def build(ctx):
     ctx.trust("contract of _map_labels (per-voxel mapped label, fresh array, no wrap; proved in C09)",
               "matcher postcondition: label map keys are prediction labels, values are reference labels (C03/C14)",
@@ -208,6 +263,7 @@ def build(ctx):
     for dt in UDT:
         ctx.unit(f"map_instance_labels[{dt}]", lambda dt=dt: unit_relabel(ctx, dt))
     ctx.unit("match_instances", lambda: unit_wrapper(ctx))
+    ctx.unit("pair.copy", lambda: unit_copy(ctx))
     # the lookup-table relabelling _map_labels (its call-site precondition is discharged above) and the routines around it: body proofs of C09
     include_stage(ctx, "C09")
     ctx.add_bounded("c04-enum", "c04.bounded")
@@ -216,4 +272,6 @@ def build(ctx):
 def concretise(ctx, o, r):
     if (o.info or {}).get("stage"):
         return stage_concretise(ctx, o, r)
+    if o.replay == "c04.copy":
+        return {"cls": o.info.get("cls")}
     return {"dtype": o.info.get("dtype"), "obligation": o.name}
